@@ -30,6 +30,31 @@ CHUNK = 250
 PH_CAP = 4000000
 
 
+def fix_coverage(r):
+    """TLC labels an action reached through a wrapper definition as `<Name line .. of module M (l c l c)>`;
+    tlc.run's pattern misses the parenthesised suffix.  Re-read the per-action counts from the output."""
+    import re
+
+    cov = {}
+    for m in re.finditer(r"^<(\w+) line \d+, col \d+ to line \d+, col \d+ of module (\w+)(?: \([\d ]+\))?>: (\d+):(\d+)", r.stdout, re.M):
+        cov[m.group(1)] = cov.get(m.group(1), 0) + int(m.group(4))
+    r.coverage = cov
+    return r
+
+
+def tame_malloc():
+    """With TF_ENABLE_ONEDNN_OPTS=0 (set by ./check) TensorFlow allocates its tensors with glibc malloc; glibc
+    raises its mmap threshold to 32 MB after the first large free and then keeps freed 32 MB blocks of many
+    threads in its arenas (measured: 0.4 GB/s growth, 49 GB, during 4e6-proposal refill batches).  Pinning the
+    threshold makes every large tensor an mmap that is returned on free.  Harness process only."""
+    try:
+        import ctypes
+
+        ctypes.CDLL("libc.so.6").mallopt(-3, 1 << 20)  # M_MMAP_THRESHOLD
+    except Exception:  # pragma: no cover
+        pass
+
+
 def frac(x, what="bound"):
     """float -> [num, den] with a small denominator (exact for the products of
     integers with 1.01, 1.02, 1.05, 1.1 that occur); machinery failure otherwise"""
@@ -166,6 +191,7 @@ class ARRecorder:
             else:
                 out.append(e)
         out.append({"a": "End", "ids": ids, "bound": frac(status[1], "final bound")})
+        fill_stored(out)
         return {
             "kind": "ar",
             "N": int(N),
@@ -247,6 +273,7 @@ class ARRecorder:
         if any(e["a"] == "Thin" and e["nkept"] is None for e in events):
             raise tlc.MachineryError("tracer: thinning without set_gen")
         events.append({"a": "End", "ids": ids, "bound": frac(max_rnd, "final bound")})
+        fill_stored(events)
         return {"kind": "ar", "N": int(N), "hasB": False, "b0": [0, 1], "ev": events, "exact": True}, ids
 
 
@@ -283,6 +310,52 @@ def make_traced(gen, log):
     gen.__class__ = _Traced
     gen._vlog = []
     return gen
+
+
+def fill_stored(events):
+    """bound kept after a Batch (before a thinning) / after a Thin = the bound the next batch is called with,
+    or the final status bound; a Batch followed by a Thin kept the bound it was called with"""
+    for j, e in enumerate(events):
+        if e["a"] not in ("Batch", "Thin"):
+            continue
+        nxt = events[j + 1]
+        if e["a"] == "Batch" and nxt["a"] == "Thin":
+            e["stored"] = list(e["bin"])
+        elif nxt["a"] == "Batch":
+            if not nxt["hasBin"]:
+                raise tlc.MachineryError("tracer: a later batch was called without a bound")
+            e["stored"] = list(nxt["bin"])
+        elif nxt["a"] == "End":
+            e["stored"] = list(nxt["bound"])
+        else:
+            raise tlc.MachineryError("tracer: unexpected record order")
+    return events
+
+
+def drift_of(trace, variant):
+    """number of Batch / Thin records whose bounds differ from the constants of the implementation
+    the specification was transcribed from (1.01, 1.1, 1.05 / 1.02, 1.01) -- informational"""
+    F = Fraction
+    n = 0
+    has, bound = trace["hasB"], F(*trace["b0"]) if trace["hasB"] else None
+    for e in trace["ev"]:
+        if e["a"] == "Batch":
+            wmax = F(max(e["ws"]))
+            if variant == "multi":
+                local = wmax * F(101, 100) if (not has or bound < wmax) else bound
+                stored = local * F(11, 10) if not has else bound
+            else:
+                local = wmax * F(51, 50) if not has else max(wmax * F(101, 100), bound)
+                stored = local if not has else bound
+            if F(*e["local"]) != local or F(*e["stored"]) != stored:
+                n += 1
+            has, bound, loc = True, F(*e["stored"]), F(*e["local"])
+        elif e["a"] == "Thin":
+            exp = loc * (F(21, 20) if variant == "multi" else 1)
+            if F(*e["stored"]) != exp:
+                n += 1
+            bound = F(*e["stored"])
+    return n
 
 
 def phsp_trace(N, node_logs):
@@ -343,6 +416,7 @@ def validate(ctx, traces, variant, label, max_rejects=20):
         r = tlc.run("TraceSampler", cfg, work=ctx.work, workers=1, env={"IN_FILE": inp}, timeout=1500)
         if r.out is None:
             raise tlc.MachineryError("TraceSampler wrote no verdict (%s)" % label)
+        fix_coverage(r)
         ctx.tlc(r, "TraceSampler %s %s round %d" % (label, variant, rounds))
         if r.violation:
             # an invariant of the specification failed on a state reached by a recorded trace
